@@ -9,6 +9,20 @@ CLAIMED = {
    text="Resolve is run on the full structured grid of the quantifier plus PRNG-generated structured and raw strings; an oracle that knows the components each link was assembled from states the demanded class; panics are caught by recover and repeated resolution checks determinism. Holds on the inputs generated, nothing more.",
    note="trusted: ref/link.Expect (hand-written statement of the property incl. explicit don't-care zones), Go runtime", ref="6/C20"),
 }
+CLAIMED.update({
+ "C03": dict(level="exploration", technique="runtime differential monitoring against an independent MTProto 1.0 envelope/KDF implementation (both directions, every body length)",
+   text="The library's Serialize output is opened by an independent reference server (x=0) and reference-sealed packets (x=8) are opened by the library, for every body length 0..N and boundary header values; any field, key id, msg_key or padding disagreement is a violation. Holds on the generated cases only.",
+   note="trusted: ref/mtp (self-tested against OpenSSL IGE vectors and the core.telegram.org temp-key sample), crypto/aes, crypto/sha1", ref="6/C03"),
+ "C04": dict(level="fault_enumeration", technique="fault enumeration at run time: every bit flip / truncation / re-keying / declared length of reference-sealed packets fed to the real parser under recover()",
+   text="For each valid packet the complete set of single-bit flips and truncation lengths, plus re-keying, garbage, parity and attacker-declared lengths, is fed to DeserializeEncrypted/DeserializeUnencrypted; the oracle allows refusal, or a message identical to what the key holder sealed, and nothing else; panics are violations.",
+   note="trusted: ref/mtp; chance acceptance of a flipped packet that changes the message has probability 2^-128", ref="6/C04"),
+ "C05": dict(level="exploration", technique="runtime differential monitoring against an independent AES-IGE / temp-key implementation via the verif-tag export of the block loop; buffer-aliasing monitor",
+   text="The package-internal block loop (exported under build tag verif) is compared with an independent IGE for every block count 1..N and hostile key/IV shapes; refused lengths 0..47; wrappers for every payload length (every residue of (20+len) mod 16) and nonces with leading zero bytes, in both peer->library and library->peer directions; caller buffers are compared before/after.",
+   note="trusted: ref/mtp, crypto/aes", ref="6/C05"),
+ "C08": dict(level="exploration", technique="runtime monitoring under enumerated read segmentations (all compositions of short streams through the real exact-count reader) and a real loopback TCP peer writing paced segments",
+   text="Wire bytes of WriteMsg are compared with an independent framing for every length around the 127-word switch; reference-framed streams are read back through go-dry's CancelableReader under every composition of short streams and PRNG segmentations of long ones, then EOF; the TCP path drives transport.NewTransport against a peer that writes segments, incl. 4-byte signed error codes and orderly close.",
+   note="trusted: ref/mtp framing, kernel loopback; on the TCP path the kernel decides the split actually seen (the deterministic path is the exhaustive one)", ref="6/C08"),
+})
 NOT_YET = {}
 
 def main():
